@@ -1,7 +1,7 @@
 use crate::linalg::Vector;
 use crate::prelude::{
-    diag, invert_matrix, is_design, is_matrix, matmul, mean, solve, sum, svmul, vadd, vdiv, vmul,
-    vsqrt, vsub,
+    diag, dot, invert_matrix, is_design, is_matrix, matmul, mean, solve, sum, svmul, vadd, vdiv,
+    vmul, vsqrt, vsub,
 };
 
 use super::ExponentialFamily;
@@ -138,6 +138,32 @@ impl GLM {
         }
     }
 
+    /// Deviance of the fit under the prior weights: `sum_i weights[i] * d(y[i], mu[i])`, where the
+    /// unit deviance `d` of observation `i` is the family's deviance of that single observation
+    /// (every family's deviance is a sum over the observations). With frequency weights this is the
+    /// deviance of the data set in which observation `i` is repeated `weights[i]` times. Unit weights
+    /// (the default when no weights are set) give the family's deviance of the whole sample.
+    fn weighted_deviance(&self, y: &[f64], mu: &[f64], weights: &[f64]) -> f64 {
+        if weights.iter().all(|&w| w == 1.) {
+            return self.family.deviance(y, mu);
+        }
+        (0..y.len())
+            .map(|i| weights[i] * self.family.deviance(&y[i..i + 1], &mu[i..i + 1]))
+            .sum()
+    }
+
+    /// Weighted deviance plus the ridge penalty `alpha * |coef[1..]|^2` (the objective whose relative
+    /// change stops the scoring loop).
+    fn weighted_penalized_deviance(
+        &self,
+        y: &[f64],
+        mu: &[f64],
+        weights: &[f64],
+        coef: &[f64],
+    ) -> f64 {
+        self.weighted_deviance(y, mu, weights) + self.alpha * dot(&coef[1..], &coef[1..])
+    }
+
     /// Fit the GLM using the [scoring algorithm](https://en.wikipedia.org/wiki/Score_(statistics)#Scoring_algorithm),
     /// which gives the maximumum likelihood estimate. It performs a maximum of `max_iter` iterations.
     /// Note that `x` must be a design matrix (i.e., the first column must contain all 1's).
@@ -207,7 +233,7 @@ impl GLM {
 
             let penalized_deviance_previous = penalized_deviance;
 
-            penalized_deviance = self.family.penalized_deviance(y, &mu, self.alpha, &coef);
+            penalized_deviance = self.weighted_penalized_deviance(y, &mu, &weights, &coef);
             is_converged = self.has_converged(
                 penalized_deviance,
                 penalized_deviance_previous,
@@ -223,7 +249,7 @@ impl GLM {
         }
 
         self.coef = Some(coef);
-        self.deviance = Some(self.family.deviance(y, &mu));
+        self.deviance = Some(self.weighted_deviance(y, &mu, &weights));
         self.information_matrix = Some(self.compute_ddbeta(x, &dmu, &var, &weights));
         self.n = Some(sum(&weights).round() as usize);
         self.p = Some(p);
@@ -243,7 +269,9 @@ impl GLM {
         }
     }
 
-    /// Return the deviance of the model.
+    /// Return the deviance of the model. With prior weights it is the weighted sum of the unit
+    /// deviances, so that the dispersion, standard errors, AIC and BIC derived from it agree with
+    /// those of the replicated data when the weights are frequencies.
     pub fn deviance(&self) -> Result<f64, &str> {
         if let Some(dev) = self.deviance {
             Ok(dev)
